@@ -1,5 +1,6 @@
 import GB.Base.Proto
 import GB.C05.Spec
+import GB.C05.Pipeline
 /-
   C05 driver: trace validation of one resolver run (one or more polls against one scripted target).
 
@@ -297,30 +298,6 @@ def returnedFiles (evs : List Event) : List DFile :=
     | .files fs => fs
     | _ => []
 
-def conformantEvent (own : List DFile) (listed : List Name) (e : Event) : Bool :=
-  match e with
-  | (.list, .listing l) => l == listed
-  | (.symbol n, .files fs) => fs.all (· ∈ own) && fs.any (fun f => decide (definesService f n))
-  | (.filename n, .files fs) => fs.all (· ∈ own) && n ∈ fileNames fs
-  | _ => false
-
-def focusedEvent (own : List DFile) (e : Event) : Bool :=
-  match e with
-  | (.symbol n, .files fs) =>
-    let roots := fileNames (own.filter fun f => decide (definesService f n))
-    fs.all fun g => g.name ∈ reachB own roots
-  | (.filename n, .files fs) => fs.all fun g => g.name ∈ reachB own [n]
-  | _ => true
-
-def specRoots (cfg : Cfg) (own : List DFile) (listed : List Name) : List Name :=
-  let names := specNames cfg listed
-  fileNames (own.filter fun f => f.services.any fun s => s.name ∈ names)
-
-/-- breadth-first import depth of the wanted services' files fits the limit -/
-def depthFits (cfg : Cfg) (own : List DFile) (listed : List Name) : Bool :=
-  let roots := specRoots cfg own listed
-  (reachB own roots).all (· ∈ withinB own roots cfg.limit)
-
 def servicesPart (result : String) : String := (splitFirst "#" result).2
 
 /-- which clause of `wfFilesB` a descriptor set breaks -/
@@ -409,7 +386,162 @@ def judgePoll (inp : Input) (pin : PollIn) (p : PollOut) (js : JState) : JState 
     else if !logMatches inp.wire log p then (js', "DIFF model issues different requests", branch)
     else (js', "", branch)
 
+/-! ### op `pipe`: the real client's pipelined batch + close(), replayed through `Pipe.step`
+
+Visible events are matched with labels; the goroutines' internal moves (pushing the semaphore token,
+finishing, main's reads of the two channels, wg.Wait) are searched for.  VIOL: the returned files/error
+differ from the sequential conversation, a `Recv` is called before its request was sent, a `Recv` is issued
+while a read is in flight, a goroutine is still calling the stream after the function returned. -/
+
+open Pipe in
+def pipeAnswer (i : Nat) (t : String) : Option Answer :=
+  match t.toList with
+  | 'F' :: k => (String.ofList k).toNat?.map fun n =>
+      Answer.files ((List.range n).map fun j =>
+        ({ name := [UInt8.ofNat i, UInt8.ofNat j], deps := [], messages := [], services := [] } : DFile))
+  | 'e' :: c => (String.ofList c).toNat?.map Answer.error
+  | ['o'] => some (.other 1)
+  | _ => none
+
+def pipeIds (l : List DFile) : String :=
+  "+".intercalate (l.map fun f => ".".intercalate (f.name.map fun b => toString b.toNat))
+
+def pipeShowResult : Except Err (List DFile) → String
+  | .ok l => s!"ok:{pipeIds l}"
+  | .error e => s!"err:{e.code}"
+
+/-- depth-first search over internal labels for a state satisfying `goal` -/
+def pipeSearch (A : List Answer) (ls : List Pipe.Label) (goal : Pipe.PState → Bool) : Nat → Pipe.PState → Option Pipe.PState
+  | 0, s => if goal s then some s else none
+  | f + 1, s =>
+    if goal s then some s
+    else ls.findSome? fun l =>
+      match Pipe.step true A s l with
+      | some s' => pipeSearch A ls goal f s'
+      | none => none
+
+def pipeSignal (A : List Answer) (s : Pipe.PState) : Pipe.PState :=
+  (Pipe.step true A s .reqSignal).getD s
+
+def pipeForceCancel (A : List Answer) (s : Pipe.PState) : Option Pipe.PState :=
+  pipeSearch A [.mainReadRecv, .mainReadSend] (fun t => t.cancelled) 2 s
+
+def pipeInternal : List Pipe.Label :=
+  [.reqSignal, .reqFinish, .rcvFinish, .rcvCancelled, .mainReadRecv, .mainReadSend, .mainJoin]
+
+def pipeEvent (A : List Answer) (s : Pipe.PState) (ev : String) : Except String Pipe.PState :=
+  let step (s : Pipe.PState) (l : Pipe.Label) (why : String) : Except String Pipe.PState :=
+    match Pipe.step true A s l with
+    | some s' => .ok s'
+    | none => .error why
+  let (k, v) := splitFirst ":" ev
+  if ev.startsWith "S+" then
+    let s := pipeSignal A s
+    match (ev.drop 2).toString.toNat? with
+    | some i =>
+      if s.rpc = .send i ∧ i < A.length then .ok s
+      else if s.rpc = .done then .error s!"VIOL the requester calls Send({i}) after it has exited (goroutine outlived the call)"
+      else .error s!"DIFF Send({i}) called out of order"
+    | none => .error "BAD S+"
+  else if k.startsWith "S-" then
+    if v == "ok" then step s .reqSend "DIFF Send returned without being called"
+    else if v == "ctx" then
+      match pipeForceCancel A s with
+      | some s' => step s' (.reqSendFault ⟨Pipe.codeCanceled⟩) "DIFF Send returned without being called"
+      | none => .error "VIOL a Send was cancelled although the function had no result yet"
+    else
+      match (v.drop 1).toString.toNat? with
+      | some c => step s (.reqSendFault ⟨c⟩) "DIFF Send returned without being called"
+      | none => .error "BAD S-"
+  else if ev == "R+" then
+    if s.mpc = .closing1 then
+      step s .closeRecvCall "VIOL close() reads from a stream on which a call has already failed (a read may still be in flight)"
+    else
+      let s := pipeSignal A s
+      if s.vpc = .done ∧ s.mpc ≠ .closing1 then .error "VIOL the receiver calls Recv after it has exited (goroutine outlived the call)"
+      else step s .rcvTake "VIOL Recv called before the corresponding request was sent (semaphore)"
+  else if k == "R-" then
+    if v == "eof" then step s .closeRecvRet "DIFF EOF outside close()"
+    else if v == "ctx" then
+      match pipeForceCancel A s with
+      | some s' => step s' (.rcvFault ⟨Pipe.codeCanceled⟩ true) "DIFF Recv returned without being called"
+      | none => .error "VIOL a Recv was cancelled although the function had no result yet"
+    else if v.startsWith "a" then
+      match (v.drop 1).toString.toNat? with
+      | some j =>
+        if s.vpc ≠ .recv j then .error s!"DIFF answer {j} delivered to a receiver that is not waiting for it"
+        else
+          match pipeSearch A [.serve] (fun t => j < t.served) (A.length + 1) s with
+          | some s' => step s' .rcvRecv "DIFF answer not deliverable"
+          | none => .error "BAD answer to a request that was never sent"
+      | none => .error "BAD R-:a"
+    else
+      let bg := v.endsWith "b"
+      let code := if bg then (v.drop 1).toString.dropEnd 1 |>.toString else (v.drop 1).toString
+      match code.toNat? with
+      | some c => step s (.rcvFault ⟨c⟩ bg) "DIFF Recv returned without being called"
+      | none => .error "BAD R-:x"
+  else if k == "ret" then
+    -- specification first: what the function returns is the sequential conversation's result
+    let seq := Pipe.collect A [] false
+    let s0 := s
+    let specBad : Option String :=
+      if v.startsWith "ok" then
+        if pipeShowResult seq == v then none
+        else some s!"VIOL returned files differ from the sequential conversation ({pipeShowResult seq})"
+      else
+        -- an error: exact unless a stream-level fault happened before the function's own cancel()
+        match pipeSearch A pipeInternal (fun t => t.mpc = .returned) 12 s0 with
+        | some t =>
+          if t.streamFault then (match seq with | .ok _ => none | .error _ => none)
+          else if pipeShowResult seq == v then none
+          else some s!"VIOL returned error differs from the sequential conversation ({pipeShowResult seq})"
+        | none => none
+    match specBad with
+    | some r => .error r
+    | none =>
+      match pipeSearch A pipeInternal
+          (fun t => t.mpc = .returned && (t.result.map pipeShowResult) == some v) 12 s with
+      | some t => .ok t
+      | none =>
+        match pipeSearch A pipeInternal (fun t => t.mpc = .returned) 12 s with
+        | some t => .error s!"DIFF model returns {(t.result.map pipeShowResult).getD "nothing"}"
+        | none => .error "VIOL the function returned while a goroutine of it cannot have exited (wg.Wait)"
+  else if ev == "CS" then step s .closeSend "DIFF CloseSend before the call returned"
+  else if ev == "CL" then
+    let s1 := if s.mpc = .closing1 then Pipe.step true A s .closeSkipRecv else some s
+    match s1 with
+    | some t => step t .closeClose "DIFF Close out of order"
+    | none => .error "DIFF close() skipped the graceful Recv on a healthy stream"
+  else if ev == "hang" then .error "VIOL the client did not return (hang)"
+  else .error s!"BAD event {ev}"
+
+def handlePipe (inF outF : List String) : String :=
+  let get (key : String) : String :=
+    ((inF.find? (fun f => f.startsWith (key ++ "="))).map fun f => (splitFirst "=" f).2).getD ""
+  let toks := splitL "," (get "A")
+  let ans := (toks.zip (List.range toks.length)).map fun (t, i) => pipeAnswer i t
+  if ans.any Option.isNone then "BAD pipe answers" else
+  let A := ans.filterMap id
+  if some A.length ≠ (get "n").toNat? then "BAD pipe n" else
+  let rec go (evs : List String) (s : Pipe.PState) : String :=
+    match evs with
+    | [] =>
+      if s.mpc = .closed then
+        let fault := if s.streamFault then "fault" else "clean"
+        let res := match s.result with | some (.ok _) => "ok" | _ => "err"
+        "OK" ++ (if A.length ≥ 2 then " nt" else "") ++ s!" b=pipe-{res}-{fault}"
+      else "DIFF the log ends before close() finished"
+    | ev :: rest =>
+      if Pipe.reads s > 1 then "VIOL two reads of the stream in flight"
+      else
+        match pipeEvent A s ev with
+        | .ok s' => go rest s'
+        | .error e => e ++ s!" [at {ev}]"
+  go outF (Pipe.init A.length)
+
 def handle : Handler := fun inF outF =>
+  if inF.head? == some "pipe" then handlePipe inF outF else
   match parseInput inF with
   | .error e => s!"BAD input {e}"
   | .ok inp =>
